@@ -359,8 +359,12 @@ def gen_cases(ctx):
         else:
             bc = rng.choice(["str", "pos0", "neg0"]); box, intbox = make_box(rng, bc), True   # outside the domain
         cases.append(new_case("recip", box, intbox=intbox, bcls=bc, stream="recip", via=rng.choice(["method", "ufunc"])))
-    # exp, log, sqrt
-    for _ in range(ctx.scale(90, 4500)):
+    # exp, log, sqrt: every map on every box class (guards at the edge of the domain included), both call routes
+    for f in UNARY:
+        for bc in ("pos", "pos0", "neg", "neg0", "str", "precise", "interval"):
+            for via in ("method", "ufunc"):
+                cases.append(new_case("un", make_box(rng, bc), f=f, bcls=bc, stream="unary", via=via))
+    for _ in range(ctx.scale(60, 4500)):
         f = rng.choice(UNARY)
         t = rng.random()
         sg = rng.choice(["pos", "pos", "neg", "str"]) if f != "exp" else rng.choice(["pos", "neg", "str"])
@@ -370,8 +374,14 @@ def gen_cases(ctx):
         else:
             l, r, kd = pbx.lib_box200(rng, sg); bc = "lib-" + kd; box, intbox = (l, r), False
         cases.append(new_case("un", box, intbox=intbox, f=f, bcls=bc, stream="unary", via=rng.choice(["method", "ufunc"])))
-    # powers
-    for _ in range(ctx.scale(110, 5000)):
+    # powers: integer exponents on every sign class (even powers of straddling boxes fold at zero)
+    for kind in ("int", "npi"):
+        for cv in (2, 3):
+            for bc in ("pos", "neg", "str", "pos0", "neg0"):
+                cases.append(new_case("pow", make_box(rng, bc), ckind=kind, c=cv, bcls=bc, stream="pow"))
+    for bc in ("str", "neg"):
+        cases.append(new_case("pow", distinct_steps_box(rng, bc), ckind="int", c=2, bcls="distinct-" + bc, stream="pow"))
+    for _ in range(ctx.scale(90, 5000)):
         kind = rng.choice(KINDS)
         if kind in ("int", "npi"):
             cv = rng.choice([1, 2, 2, 3, 3, 4])
